@@ -96,6 +96,7 @@ def fmtReq : Req → String
 def fmtErr : SendError → String
   | .index => "index"
   | .terminated => "terminated"
+  | .unhealthy => "unhealthy"
 
 def fmtOpen (o : Open) : String := s!"({o.id},{o.t},{fmtRat o.filled})"
 def fmtActive : Active → String
@@ -119,7 +120,7 @@ def parseInit (toks : List String) : Option Eng :=
   match toks with
   | on :: "L" :: links :: "I" :: instrs =>
     let enabled := on == "on"
-    let ls := links.toList.map fun c => if c == 'H' then Link.healthy else if c == 'C' then Link.closed else Link.missing
+    let ls := links.toList.map fun c => if c == 'H' then Link.healthy else if c == 'C' then Link.closed else if c == 'U' then Link.unhealthy else Link.missing
     let is := instrs.foldl (fun acc t => match acc, (t.splitOn ",").map String.toNat? with
       | some l, [some ex, some b, some q] => some (l ++ [(⟨ex, b, q, [], none, none⟩ : Instr)])
       | _, _ => none) (some [])
@@ -210,7 +211,7 @@ def obsTick (before after : Eng) (a : Audit) : List String :=
   let newLog := after.log.drop before.log.length
   (before.links.zipIdx.map fun (l, x) =>
     match l with
-    | .healthy => s!"rx{x} " ++ joinOr ((newLog.filter fun r => r.key.exchange == x).map fmtReq)
+    | .healthy | .unhealthy => s!"rx{x} " ++ joinOr ((newLog.filter fun r => r.key.exchange == x).map fmtReq)
     | _ => s!"rx{x} -") ++
   (match a.commanded with
     | some c => sendOutLines "cmd_c" fmtCancel c.cancels ++ sendOutLines "cmd_o" fmtOpenReq c.opens
